@@ -17,6 +17,7 @@ import (
 	"io"
 	"net"
 	"os"
+	"runtime/debug"
 	"sort"
 	"strconv"
 	"strings"
@@ -34,9 +35,13 @@ import (
 	common2 "github.com/elastos/Elastos.ELA/core/types/common"
 	"github.com/elastos/Elastos.ELA/core/types/functions"
 	"github.com/elastos/Elastos.ELA/core/types/interfaces"
+	"github.com/elastos/Elastos.ELA/core/types/outputpayload"
 	"github.com/elastos/Elastos.ELA/core/types/payload"
 	"github.com/elastos/Elastos.ELA/database"
+	_ "github.com/elastos/Elastos.ELA/database/ffldb"
 	"github.com/elastos/Elastos.ELA/p2p"
+
+	"github.com/btcsuite/btcd/wire"
 )
 
 func atoi(s string) int {
@@ -180,6 +185,98 @@ func iTruth(id int) string {
 		return fmt.Sprintf("ok %d %d", b[0], b[1])
 	}
 	return "err notfound"
+}
+
+// ---------------------------------------------------------------- B'. the real UnspentIndex over a real ffldb
+
+var hashIdxBucket = []byte("hashidx") // the bucket the chain store maintains (block hash → height)
+
+type xState struct {
+	db       database.DB
+	txIndex  *indexers.TxIndex
+	cached   *indexers.UnspentIndex
+	uncached *indexers.UnspentIndex // same database, a cache that is never populated = the uncached lookup
+	blocks   map[int]*types.Block
+	tx       map[int]interfaces.Transaction
+	nonce    uint32
+}
+
+var X *xState
+
+func xHash(id int) common.Uint256 {
+	if t, ok := X.tx[id]; ok {
+		return t.Hash()
+	}
+	return mkTx("x-unknown", id, nil, 0, 0).Hash()
+}
+
+func xReset(vol int) {
+	if X != nil && X.db != nil {
+		X.db.Close()
+	}
+	dir, err := os.MkdirTemp("", "c15-index-")
+	if err != nil {
+		panic("harness: " + err.Error())
+	}
+	tmpDirs = append(tmpDirs, dir)
+	db, err := database.Create("ffldb", dir+"/blocks", wire.MainNet)
+	if err != nil {
+		panic("harness: create ffldb: " + err.Error())
+	}
+	p := *config.GetDefaultParams()
+	p.TxCacheVolume = uint32(vol)
+	p.MemoryFirst = false
+	X = &xState{db: db, txIndex: indexers.NewTxIndex(db), cached: indexers.NewUnspentIndex(db, &p), uncached: indexers.NewUnspentIndex(db, &p),
+		blocks: map[int]*types.Block{}, tx: map[int]interfaces.Transaction{}}
+	err = db.Update(func(dbTx database.Tx) error {
+		if _, err := dbTx.Metadata().CreateBucket(hashIdxBucket); err != nil {
+			return err
+		}
+		if err := X.txIndex.Create(dbTx); err != nil {
+			return err
+		}
+		return X.cached.Create(dbTx)
+	})
+	if err != nil {
+		panic("harness: create buckets: " + err.Error())
+	}
+}
+
+// h:nout:cacheable:coinbase:r.i+r.i
+func xBuildTx(spec string) interfaces.Transaction {
+	p := strings.Split(spec, ":")
+	id, nout, cacheable, coinbase := atoi(p[0]), atoi(p[1]), p[2] == "1", p[3] == "1"
+	var inputs []*common2.Input
+	if p[4] != "-" {
+		for _, in := range strings.Split(p[4], "+") {
+			q := strings.Split(in, ".")
+			inputs = append(inputs, &common2.Input{Previous: common2.OutPoint{TxID: xHash(atoi(q[0])), Index: uint16(atoi(q[1]))}})
+		}
+	}
+	if cacheable != (len(inputs) <= indexers.MaxCacheInputsCountPerTransaction) {
+		panic("harness: cacheable flag does not match the input count")
+	}
+	var outputs []*common2.Output
+	for i := 0; i < nout; i++ {
+		outputs = append(outputs, &common2.Output{Value: common.Fixed64(i + 1), Type: common2.OTNone, Payload: &outputpayload.DefaultOutput{}})
+	}
+	attrs := []*common2.Attribute{{Usage: common2.Nonce, Data: []byte("x" + strconv.Itoa(id))}}
+	ty := common2.TransferAsset
+	var pl interfaces.Payload = &payload.TransferAsset{}
+	if coinbase {
+		ty, pl = common2.CoinBase, &payload.CoinBase{}
+	}
+	t := functions.CreateTransaction(common2.TxVersion09, ty, 0, pl, attrs, inputs, outputs, 0, []*program.Program{})
+	X.tx[id] = t
+	return t
+}
+
+func xFetch(idx *indexers.UnspentIndex, id int) string {
+	_, height, err := idx.FetchTx(xHash(id))
+	if err != nil {
+		return "err notfound"
+	}
+	return fmt.Sprintf("ok %d", height)
 }
 
 // ---------------------------------------------------------------- C. decoded block cache
@@ -328,6 +425,14 @@ func sSnap() (string, int) {
 // ---------------------------------------------------------------- exec
 
 func exec(t []string) string {
+	if os.Getenv("HX_DEBUG") != "" {
+		defer func() {
+			if e := recover(); e != nil {
+				os.Stderr.Write(debug.Stack())
+				panic(e)
+			}
+		}()
+	}
 	initOnce()
 	lastExpect = ""
 	switch t[0] {
@@ -484,6 +589,70 @@ func exec(t []string) string {
 		lastExpect = iTruth(id)
 		r, _ := iFetch(id)
 		return r
+	case "x.reset":
+		xReset(atoi(t[1]))
+		return "ok"
+	case "x.connect":
+		h := atoi(t[1])
+		var txs []interfaces.Transaction
+		for _, spec := range strings.Split(t[2], ";") {
+			txs = append(txs, xBuildTx(spec))
+		}
+		X.nonce++
+		block := &types.Block{Header: common2.Header{Height: uint32(h), Nonce: X.nonce}, Transactions: txs}
+		bh := block.Hash()
+		err := X.db.Update(func(dbTx database.Tx) error {
+			buf := new(bytes.Buffer)
+			if err := (&types.DposBlock{Block: block}).Serialize(buf); err != nil {
+				return err
+			}
+			if err := dbTx.StoreBlock(bh, buf.Bytes()); err != nil {
+				return err
+			}
+			var hb [4]byte
+			hb[0], hb[1], hb[2], hb[3] = byte(h), byte(h>>8), byte(h>>16), byte(h>>24)
+			if err := dbTx.Metadata().Bucket(hashIdxBucket).Put(bh[:], hb[:]); err != nil {
+				return err
+			}
+			if err := X.txIndex.ConnectBlock(dbTx, block); err != nil {
+				return err
+			}
+			return X.cached.ConnectBlock(dbTx, block)
+		})
+		if err != nil {
+			panic("harness: connect block: " + err.Error())
+		}
+		X.blocks[h] = block
+		return fmt.Sprintf("ok len=%d", X.cached.TxCache.VerifLen())
+	case "x.disconnect":
+		h := atoi(t[1])
+		block, ok := X.blocks[h]
+		if !ok {
+			panic("harness: no block at height " + t[1])
+		}
+		bh := block.Hash()
+		err := X.db.Update(func(dbTx database.Tx) error {
+			if err := dbTx.Metadata().Bucket(hashIdxBucket).Delete(bh[:]); err != nil {
+				return err
+			}
+			if err := X.cached.DisconnectBlock(dbTx, block); err != nil {
+				return err
+			}
+			return X.txIndex.DisconnectBlock(dbTx, block)
+		})
+		if err != nil {
+			panic("harness: disconnect block: " + err.Error())
+		}
+		delete(X.blocks, h)
+		return fmt.Sprintf("ok len=%d", X.cached.TxCache.VerifLen())
+	case "x.fetch":
+		id := atoi(t[1])
+		lastExpect = xFetch(X.uncached, id)
+		r := xFetch(X.cached, id)
+		if X.cached.TxCache.GetTxn(xHash(id)) != nil {
+			return r + " hit"
+		}
+		return r + " miss"
 	case "b.reset":
 		bReset()
 		return "ok"
@@ -591,6 +760,10 @@ func oracle(t []string, out string) *hx.Violation {
 		if atoi(field(out, "ntx")) > U.max+1 {
 			return bad("utxo-txcache-over-limit", fmt.Sprintf("%s transactions cached, limit %d", field(out, "ntx"), U.max+1))
 		}
+	case "x.fetch":
+		if answer(out) != lastExpect {
+			return bad("txcache-stale", "UnspentIndex.FetchTx answers "+answer(out)+", a cache-less index on the same database "+lastExpect)
+		}
 	case "i.fetch", "i.fetchv":
 		if answer(out) != lastExpect {
 			return bad("txcache-stale", "FetchTx answers "+answer(out)+" but the index says "+lastExpect)
@@ -641,6 +814,9 @@ func main() {
 	defer func() {
 		if B != nil && B.store != nil {
 			B.store.Close()
+		}
+		if X != nil && X.db != nil {
+			X.db.Close()
 		}
 		for _, d := range tmpDirs {
 			os.RemoveAll(d)
